@@ -143,6 +143,8 @@ fn build_decision_service_evaluator(
   drop(item_definition_type_evaluator);
   drop(input_data_evaluator);
   drop(decision_evaluator);
+  #[cfg(dmntk_verif)]
+  let verif_id = decision_service_id.clone();
   // build decision service evaluator closure
   let decision_service_evaluator = Box::new(
     move |input_data: &FeelContext, model_evaluator: &ModelEvaluator, output_data: &mut FeelContext| {
@@ -150,6 +152,8 @@ fn build_decision_service_evaluator(
       if let Ok(item_definition_evaluator) = model_evaluator.item_definition_evaluator() {
         if let Ok(input_data_evaluator) = model_evaluator.input_data_evaluator() {
           if let Ok(decision_evaluator) = model_evaluator.decision_evaluator() {
+            #[cfg(dmntk_verif)]
+            crate::verif::emit("decision_service", &verif_id, input_data);
             // evaluate input decisions and store the results in separate context
             let mut input_decisions_results = FeelContext::default();
             input_decisions.iter().for_each(|id| {
